@@ -20,7 +20,10 @@ from common.coqlit import Err
 from pysparkling import Context
 
 ID = 'C02'
-KERNELS = ['Gen/Parallelize.v: par_take', 'Gen/Parallelize.v: par_single']
+KERNELS = ['Gen/Parallelize.v: par_take', 'Gen/Parallelize.v: par_single',
+           'Gen/KeyedJoin.v: gen_join_fn', 'Gen/KeyedJoin.v: gen_loj_fn', 'Gen/KeyedJoin.v: gen_roj_fn',
+           'Gen/KeyedJoin.v: gen_foj_fn', 'Gen/KeyedJoin.v: gen_semi_fn', 'Gen/KeyedJoin.v: gen_anti_fn',
+           'Gen/KeyedJoin.v: gen_subk_keep', 'Gen/KeyedJoin.v: gen_group_step']
 
 OPS = ['groupByKey', 'reduceByKey', 'foldByKey', 'aggregateByKey', 'countByKey', 'cogroup', 'join',
        'leftOuterJoin', 'rightOuterJoin', 'fullOuterJoin', 'subtractByKey', 'subtract', 'distinct',
@@ -47,7 +50,7 @@ ASSUMPTIONS = [
     'sortByKey keys: homogeneous ints, strings or int tuples, or mixed/None keys (TypeError when 2+ elements)',
     'int(i*len/n) in Context.parallelize is exact (lengths are far below 2^53)',
 ]
-TRUSTED = ['translator kernels par_take, par_single (Gen/Parallelize.v)',
+TRUSTED = ['translator kernels par_take, par_single (Gen/Parallelize.v) and translator/kernels/c02.py (Gen/KeyedJoin.v)',
            'canonical order: ckey (py/c02.py) and pv_cmp (Model/Keyed.v) define the same total order']
 
 
